@@ -33,6 +33,9 @@ type Case struct {
 	Kind    string // TASK_FAILED TASK_LOST TASK_KILLED TASK_FINISHED EXECUTOR_FAILURE AGENT_FAILURE INTERNAL_ERROR
 	Instant string // idle | parked (a transition is parked on a gated reply) | after (right after a transition returned) |
 	//                burst (the fault arrives together with the replies of all other tasks to an in-flight transition)
+	ParkMs    int // parked: how long the transition stays parked after the fault (default 100 ms; beyond 500 ms the environment's own
+	//               reaction to the fault has to wait for the transition)
+	GoErrorHook bool // the GO_ERROR by which the environment reacts is itself cancelled by a failing critical hook: the state is then forced
 	Reconnect int // 0: no; 1: the master connection is dropped once after the creation and the reconciliation answers are as the master
 	//               generates them (no executor id, labels, uuid); 2: same with fully filled answers
 }
@@ -96,6 +99,16 @@ func run(c Case) (res vh.Result) {
 				role(i, "      ")
 			}
 		}
+	}
+	if c.GoErrorHook {
+		fmt.Fprintf(&sb, "  - name: gehook\n    call:\n      func: verifprobe.P(\"fail-go-error\")\n      trigger: before_GO_ERROR\n      timeout: 5s\n      critical: true\n")
+		w.OnProbe = func(p simworld.ProbeRec) simworld.ProbeReply {
+			if strings.HasPrefix(p.Role, wf+".") && p.Arg == "fail-go-error" {
+				return simworld.ProbeReply{Fail: "simulated critical hook failure at before_GO_ERROR"}
+			}
+			return simworld.ProbeReply{}
+		}
+		defer func() { w.OnProbe = nil }()
 	}
 	w.WriteWorkflow(wf, sb.String())
 
@@ -407,7 +420,11 @@ func run(c Case) (res vh.Result) {
 			raceAvoided = true
 		}
 		inject()
-		time.Sleep(100 * time.Millisecond)
+		park := 100
+		if c.ParkMs > 0 {
+			park = c.ParkMs
+		}
+		time.Sleep(time.Duration(park) * time.Millisecond)
 		mu.Lock()
 		gate = nil
 		mu.Unlock()
@@ -427,6 +444,12 @@ func run(c Case) (res vh.Result) {
 	res.Classes = []string{"kind:" + c.Kind, "instant:" + c.Instant, "state:" + c.State, fmt.Sprintf("critical:%v", critical)}
 	if c.Reconnect > 0 {
 		res.Classes = append(res.Classes, fmt.Sprintf("after-reconnection:%d", c.Reconnect))
+	}
+	if c.ParkMs > 500 {
+		res.Classes = append(res.Classes, "reaction-waits-for-transition")
+	}
+	if c.GoErrorHook {
+		res.Classes = append(res.Classes, "go-error-cancelled-state-forced")
 	}
 	if raceAvoided {
 		res.Classes = append(res.Classes, "reply-race-avoided")
@@ -503,6 +526,10 @@ func gen(t *rapid.T) Case {
 			c.Tasks = append(c.Tasks, TaskSpec{Host: rapid.IntRange(0, 2).Draw(t, "host"), Critical: rapid.IntRange(0, 3).Draw(t, "critical") > 0, Group: rapid.IntRange(0, 2).Draw(t, "group")})
 		}
 	}
+	c.GoErrorHook = rapid.IntRange(0, 4).Draw(t, "goErrorHook") == 0
+	if c.Instant == "parked" {
+		c.ParkMs = rapid.SampledFrom([]int{100, 100, 900}).Draw(t, "parkMs")
+	}
 	c.Reconnect = rapid.SampledFrom([]int{0, 0, 0, 1, 1, 2}).Draw(t, "reconnect")
 	// exclusions while findings are open
 	if (vh.Open("KF-C03-task-finished") || vh.Open("KF-C03-task-finished-configured")) && c.Kind == "TASK_FINISHED" && c.Tasks[c.Victim].Critical {
@@ -576,6 +603,12 @@ func TestFixedReconnectAndBurst(t *testing.T) {
 			vh.Fixed(t, prop, fmt.Sprintf("after-reconnection-%s-%s", k, st), Case{Tasks: two(true, true), State: st, Victim: 0, Kind: k, Instant: "idle", Reconnect: 1}, vh.Confirmed(run))
 		}
 	}
+	// the transition in flight outlasts the half second after which the environment reacts to the fault
+	for _, st := range []string{"CONFIGURED", "RUNNING"} {
+		vh.Fixed(t, prop, "fault-during-long-transition-"+st, Case{Tasks: []TaskSpec{{Host: 0, Critical: true}, {Host: 1, Critical: true}, {Host: 2, Critical: false}}, State: st, Victim: 0, Kind: "TASK_FAILED", Instant: "parked", ParkMs: 900}, vh.Confirmed(run))
+	}
+	vh.Fixed(t, prop, "go-error-cancelled-by-a-hook-RUNNING", Case{Tasks: two(true, true), State: "RUNNING", Victim: 1, Kind: "TASK_FAILED", Instant: "idle", GoErrorHook: true}, vh.Confirmed(run))
+	vh.Fixed(t, prop, "go-error-cancelled-by-a-hook-CONFIGURED", Case{Tasks: two(true, false), State: "CONFIGURED", Victim: 0, Kind: "EXECUTOR_FAILURE", Instant: "idle", GoErrorHook: true}, vh.Confirmed(run))
 	six := []TaskSpec{{Host: 0, Critical: true}, {Host: 1, Critical: true, Group: 1}, {Host: 2, Critical: true, Group: 1}, {Host: 0, Critical: true, Group: 2}, {Host: 1, Critical: true}, {Host: 2, Critical: true, Group: 2}}
 	for i := 0; i < vh.Scale(12, 150); i++ {
 		st := []string{"CONFIGURED", "RUNNING"}[i%2]
